@@ -12,7 +12,7 @@ use std::num::NonZeroU8;
 /// An item convention.
 pub trait Conv: Copy + std::fmt::Debug + PartialEq + 'static {
     const NAME: &'static str;
-    type K;
+    type K: Clone + std::fmt::Debug + PartialEq + Eq + PartialOrd + Ord;
     fn make(key: u32, val: u8) -> Self;
     fn erased(key: u32) -> Self;
     fn probe(key: u32, val: u8) -> Self::K;
@@ -121,6 +121,9 @@ pub enum Op {
     RemoveBack(u8),
     /// remove the key in the middle of the keys pushed since the last clear
     RemoveMid,
+    /// push the SMALLEST valid key: the last present key + 1 (1 on an empty deque), which lies below
+    /// keys that were pushed earlier and have since left through the back or the front
+    PushTight,
 }
 
 pub const MAX_RANK: u8 = 7;
@@ -130,6 +133,7 @@ pub fn all_ops_ext() -> Vec<Op> {
     let mut v = all_ops();
     v.push(Op::BadPushEqual);
     v.push(Op::BadPushBelow);
+    v.push(Op::PushTight);
     v
 }
 
@@ -171,6 +175,7 @@ impl Op {
             Op::BadPushBelow => "rejected_push(below)".into(),
             Op::RemoveBack(r) => format!("remove_back#{}", r),
             Op::RemoveMid => "remove_mid".into(),
+            Op::PushTight => "push_tight".into(),
         }
     }
     pub fn parse(s: &str) -> Option<Op> {
@@ -244,7 +249,8 @@ where
 
     fn remove_key(&mut self, key: u32, val: u8) -> Result<(), String> {
         let got = self.d.remove(&T::probe(key, val));
-        let want = self.m.remove(&key);
+        // whole-item ordering removes an item only when the probe equals it, value included
+        let want = if T::NAME == "whole" && self.m.get(&key).is_some_and(|v| *v != val) { None } else { self.m.remove(&key) };
         let is_middle = want.is_some()
             && self.m.keys().next().is_some_and(|lo| *lo < key)
             && self.m.keys().next_back().is_some_and(|hi| *hi > key);
@@ -270,6 +276,16 @@ where
                 self.d.push_back_or_panic(T::make(key, val));
                 self.m.insert(key, val);
                 self.keys.push((key, val));
+            }
+            Op::PushTight => {
+                self.counter += 1;
+                let key = self.m.keys().next_back().map(|k| k + 1).unwrap_or(1);
+                let val = (self.counter % 250 + 1) as u8;
+                self.d.push_back_or_panic(T::make(key, val));
+                self.m.insert(key, val);
+                self.keys.push((key, val));
+                // keep handing out fresh keys above everything used so far
+                self.counter = self.counter.max(key / 2 + 1);
             }
             Op::PushErased => {
                 // An already-erased item: must be a no-op, whatever its key
@@ -371,11 +387,9 @@ where
         // tombstoned or popped), the absent key just below each, and one above.
         let probe = |key: u32, val: u8, wrong_value: bool| -> Result<(), String> {
             let got = self.d.find(&T::probe(key, val)).map(|it| (it.key(), it.val()));
-            let want = if wrong_value && T::NAME == "whole" {
-                None
-            } else {
-                self.m.get(&key).map(|v| (key, Some(*v)))
-            };
+            // whole-item ordering finds an item only when the probe equals it, value included
+            let _ = wrong_value;
+            let want = self.m.get(&key).filter(|v| T::NAME != "whole" || **v == val).map(|v| (key, Some(*v)));
             if got != want {
                 return Err(format!("find({}) = {:?} expected {:?}", key, got, want));
             }
@@ -389,6 +403,15 @@ where
         let top = self.keys.last().map(|(k, _)| *k).unwrap_or(0);
         probe(top + 1, 1, false)?;
         Ok(())
+    }
+
+    /// The iterator `iter()` hands out, through every `Iterator` method a client may call.
+    fn observe_iter(&self) -> Result<(), String> {
+        let want: Vec<(u32, Option<u8>)> = self.m.iter().map(|(k, v)| (*k, Some(*v))).collect();
+        match catch(|| iter_battery(|| self.d.iter(), |it| (it.key(), it.val()), &want, "iter()")) {
+            Ok(r) => r,
+            Err(p) => Err(format!("panic: {}", p)),
+        }
     }
 
     /// Out-of-order pushes must panic; run on clones (terminal).
@@ -453,6 +476,8 @@ where
         st.apply(*op, true)
             .map_err(|e| format!("step {} ({}): {}", i + 1, op.name(), e))?;
     }
+    // (reported as a failure of the last step: the explorers report a history at its last step)
+    st.observe_iter().map_err(|e| format!("step {} (then iterating): {}", path.len(), e))?;
     Ok(())
 }
 
